@@ -1178,8 +1178,8 @@ static int seed_eps(const seed_t *s, int *eps) {
 
 /* ------------------------------------------------------------------ (ii) mutation families */
 #define BIG_SEED 8192
-enum { F_ID = 0, F_TRUNC, F_BYTE, F_LEN, F_ZEND, F_SWEEP, F_N };
-static const char *FNAME[F_N] = {"id", "trunc", "byte", "len", "zend", "sweep"};
+enum { F_ID = 0, F_TRUNC, F_BYTE, F_LEN, F_ZEND, F_SWEEP, F_LEGACY, F_N };
+static const char *FNAME[F_N] = {"id", "trunc", "byte", "len", "zend", "sweep", "legacy"};
 
 static long fam_count(const seed_t *s, int fam) {
 	switch (fam) {
@@ -1188,6 +1188,7 @@ static long fam_count(const seed_t *s, int fam) {
 		case F_BYTE: return (long)s->n * 6;
 		case F_LEN: return (long)s->nel * 5;
 		case F_SWEEP: return (long)s->n * 256;
+		case F_LEGACY: return (long)s->nel * 96;
 		default: return (long)s->nel;
 	}
 }
@@ -1223,6 +1224,16 @@ static void emit_zend(const seed_t *s, int i, int t, vbuf *out) {
 	vb_free(&pl);
 }
 
+/* quick tier: the sweep covers header bytes, the first four payload bytes of every leaf element (algorithm ids, flags, length
+ * octets, leading integer bytes) and every byte of leaves of at most 16 bytes; the thorough tier covers every offset */
+static int sweep_quick_offset(const seed_t *s, size_t off) {
+	int i, best = -1;
+	if (s->ishdr[off]) return 1;
+	for (i = 0; i < s->nel; i++) if (off >= s->el[i].off + s->el[i].hdr && off < s->el[i].off + s->el[i].hdr + s->el[i].len) best = i;   /* innermost: elements are in document order */
+	if (best < 0) return 1;
+	return s->el[best].len <= 16 || off < s->el[best].off + s->el[best].hdr + 4;
+}
+
 /* returns 1 when a mutant was produced (0: the mutation is a no-op or a duplicate of an earlier one) */
 static int make_mutant(const seed_t *s, int fam, long idx, vbuf *out) {
 	switch (fam) {
@@ -1240,9 +1251,22 @@ static int make_mutant(const seed_t *s, int fam, long idx, vbuf *out) {
 			out->p[off] = v[op];
 			return 1;
 		}
+		case F_LEGACY: {   /* every 29-octet legacy identifier (tag 03 inside a link) rewritten: string length 0..31 x {letters + zero padding,
+		                    * letters to the end, non-zero padding} */
+			const el_t *e = &s->el[idx / 96];
+			int L = (int)((idx % 96) % 32), var = (int)((idx % 96) / 32), k;
+			unsigned char *q;
+			if (e->tag != 0x03 || e->len != 29 || e->parent < 0 || (s->el[e->parent].tag != 0x07 && s->el[e->parent].tag != 0x08)) return 0;
+			vb_put(out, s->d, s->n);
+			q = out->p + e->off + e->hdr;
+			q[0] = 0x03; q[1] = 0x00; q[2] = (unsigned char)L;
+			for (k = 3; k < 29; k++) q[k] = (k - 3 < L || var == 1) ? (unsigned char)('A' + (k % 23)) : (var == 2 && k == 28) ? 0x01 : 0x00;
+			return 1;
+		}
 		case F_SWEEP: {   /* every offset x every other byte value (the six values of the byte family are done there) */
 			size_t off = (size_t)(idx / 256);
 			unsigned char o = s->d[off], v = (unsigned char)(idx % 256);
+			if (!VF_THOROUGH && !sweep_quick_offset(s, off)) return 0;
 			if (v == o || v == 0 || v == 0xff || v == (unsigned char)(o ^ 1) || v == (unsigned char)(o ^ 0x80) || v == (unsigned char)(o + 1) || v == (unsigned char)(o - 1)) return 0;
 			vb_put(out, s->d, s->n);
 			out->p[off] = v;
@@ -1290,6 +1314,7 @@ static long chunk_items(const seed_t *s, int fam) {
 	long c;
 	if (fam == F_ZEND) return 1;
 	if (fam == F_SWEEP) return 16384;
+	if (fam == F_LEGACY) return 100000;
 	switch (s->type) {
 		case ST_SIG: per_item = 300.0 + 1.8 * (double)s->n; break;
 		case ST_AGGR: per_item = 200.0 + 1.2 * (double)s->n; break;
@@ -1311,7 +1336,7 @@ static void seed_cases(const seed_t *s, int fam) {
 		batch b;
 		/* debug log level: every family of the quick seeds; for the other seeds every family but the per-offset one */
 		if (L == 1 && fam == F_BYTE && !s->quick) continue;
-		if (L == 1 && fam == F_SWEEP) continue;
+		if (L == 1 && (fam == F_SWEEP || fam == F_LEGACY)) continue;
 		if (time_over()) return;
 		if (!vf_case_begin("m:%s:%s:%ld:L%d", s->name, FNAME[fam], start / ch, L)) continue;
 		memset(&b, 0, sizeof b);
@@ -1339,10 +1364,11 @@ static void part_seeds(int which) {   /* 0: small seeds, all families but zend; 
 		if (which == 2) { seed_cases(s, F_ZEND); continue; }
 		if (which == 3) {
 			/* full byte sweep: reference-built signatures (quick: the one with legacy-id and metadata links and an authentication
-			 * record; thorough: every reference-built seed up to 1200 bytes) */
-			if (strncmp(s->name, "ref:", 4) != 0 || s->n > 1200) continue;
+			 * record; thorough: every reference-built seed up to 2000 bytes) */
+			if (strncmp(s->name, "ref:", 4) != 0 || s->n > 2000) continue;
 			if (!VF_THOROUGH && strcmp(s->name, "ref:sig.tail3.rfc0") != 0) continue;
 			seed_cases(s, F_SWEEP);
+			seed_cases(s, F_LEGACY);
 			continue;
 		}
 		if ((s->n <= SMALL_SEED) != (which == 0)) continue;
